@@ -2,9 +2,10 @@
   C06 — no deadlock: every operation eventually returns.
 
   PROVED (`C06_no_deadlock`): for every initial tree satisfying the structural invariant (in
-  particular a fresh tree of any even order ≥ 4), every finite family of client programs
+  particular a fresh tree of any even order ≥ 2), every finite family of client programs
   that respect the cursor discipline (`Disciplined`: tree operations only while no cursor is
-  open, `Pair` only after `Scan`), and EVERY schedule: no thread ever panics, and in every
+  open, `Pair` only after `Scan`) — where the order is at least 4 or no program contains a
+  Delete (`hdel`; at order 2 a Delete panics) — and EVERY schedule: no thread ever panics, and in every
   reachable configuration with an unfinished thread in which no thread has ended with a
   cursor still open (`FinishedClean`, the client's side of C06), some thread is enabled.
   Method: the concurrent structural invariant `CInv` (node identities distinct, parallel
@@ -39,15 +40,17 @@ variable {K V : Type}
     `smallest()` of an empty node, no "both siblings empty", no bad merge, no nil cursor. -/
 theorem C06_no_panic (P : Params K) (tree : Tree K V) (progs : List (List (COp K V)))
     (ht : TreeOk none tree) (ho : tree.order = P.order) (hp : PadOk P) (hd : Disciplined progs)
+    (hdel : 4 ≤ tree.order ∨ NoDelete progs)
     (c : Config K V) (hr : Reachable (Config.init P tree progs) c) : c.dead = false :=
-  (reachable_cinv P tree progs ht ho hp hd c hr).alive
+  (reachable_cinv P tree progs ht ho hp hd hdel c hr).alive
 
 /-- **C06: every reachable configuration is ranked.** Every waiting thread waits for a mutex
     that comes after all the mutexes it holds in the order `posRank` of the current tree. -/
 theorem C06_reachable_ranked (P : Params K) (tree : Tree K V) (progs : List (List (COp K V)))
     (ht : TreeOk none tree) (ho : tree.order = P.order) (hp : PadOk P) (hd : Disciplined progs)
+    (hdel : 4 ≤ tree.order ∨ NoDelete progs)
     (c : Config K V) (hr : Reachable (Config.init P tree progs) c) : Ranked (posRank c.tree) c :=
-  sinv_ranked c (reachable_cinv P tree progs ht ho hp hd c hr).s
+  sinv_ranked c (reachable_cinv P tree progs ht ho hp hd hdel c hr).s
 
 /-- **C06: no deadlock.** In every reachable configuration (every initial tree satisfying the
     structural invariant, every family of disciplined client programs, every schedule) in
@@ -55,9 +58,10 @@ theorem C06_reachable_ranked (P : Params K) (tree : Tree K V) (progs : List (Lis
     is enabled. -/
 theorem C06_no_deadlock (P : Params K) (tree : Tree K V) (progs : List (List (COp K V)))
     (ht : TreeOk none tree) (ho : tree.order = P.order) (hp : PadOk P) (hd : Disciplined progs)
+    (hdel : 4 ≤ tree.order ∨ NoDelete progs)
     (c : Config K V) (hr : Reachable (Config.init P tree progs) c)
     (hfin : FinishedClean c) (hu : c.unfinished = true) : c.enabledSet ≠ [] :=
-  let hinv := reachable_cinv P tree progs ht ho hp hd c hr
+  let hinv := reachable_cinv P tree progs ht ho hp hd hdel c hr
   ranked_not_deadlocked (posRank c.tree) c hinv.s.owner (sinv_ranked c hinv.s) hfin hu
 
 /-- **C06: an operation takes boundedly many of its own steps** (no retry loops). Once an
@@ -68,28 +72,58 @@ theorem C06_no_deadlock (P : Params K) (tree : Tree K V) (progs : List (List (CO
     and fairness of the scheduler (assumed) every operation eventually returns. -/
 theorem C06_bounded_own_steps (P : Params K) (tree : Tree K V) (progs : List (List (COp K V)))
     (ht : TreeOk none tree) (ho : tree.order = P.order) (hp : PadOk P) (hd : Disciplined progs)
+    (hdel : 4 ≤ tree.order ∨ NoDelete progs)
     (c : Config K V) (hr : Reachable (Config.init P tree progs) c)
     (j : Nat) (ts : List Nat) (c' : Config K V) (hrun : c.run ts = (c', none))
     (b b' : Thread K V) (hb : c.threads[j]? = some b) (hb' : c'.threads[j]? = some b')
     (hnt : parkWant b.park ≠ some Lk.tree) (hns : b.park ≠ .start) (hpc : b'.pc = b.pc) (hnf : b'.park ≠ .finished) :
     ts.count j ≤ 3 * c.tree.depth + 6 :=
-  own_steps_le j ts c c' (reachable_cinv P tree progs ht ho hp hd c hr) hrun b b' hb hb' hnt hns hpc hnf
+  own_steps_le j ts c c' (reachable_cinv P tree progs ht ho hp hd hdel c hr) hrun b b' hb hb' hnt hns hpc hnf
 
 /-- **C06: every own step makes progress.** A step of a thread inside an operation either
     completes the operation or strictly decreases the measure `opMeasure` (height-based). -/
 theorem C06_own_step_progress (P : Params K) (tree : Tree K V) (progs : List (List (COp K V)))
     (ht : TreeOk none tree) (ho : tree.order = P.order) (hp : PadOk P) (hd : Disciplined progs)
+    (hdel : 4 ≤ tree.order ∨ NoDelete progs)
     (c c' : Config K V) (hr : Reachable (Config.init P tree progs) c) (t : Nat) (hstep : c.step t = some c')
     (th th' : Thread K V) (hth : c.threads[t]? = some th) (hth' : c'.threads[t]? = some th')
     (hps : th.park ≠ .start) :
     th.pc < th'.pc ∨ th'.park = .finished ∨ opMeasure c'.tree th'.park < opMeasure c.tree th.park :=
-  own_step_progress c c' t hstep (reachable_cinv P tree progs ht ho hp hd c hr) th th' hth hth' hps
+  own_step_progress c c' t hstep (reachable_cinv P tree progs ht ho hp hd hdel c hr) th th' hth hth' hps
 
 /-- the hypotheses are satisfiable: a fresh tree of order 4 satisfies the structural
     invariant, and a program mixing point operations with a cursor session is disciplined -/
 example : TreeOk none (Tree.new 4 : Tree Nat Nat) ∧
     Disciplined [[COp.ins 1 1, COp.ns 0, COp.scan, COp.pair, COp.close, COp.del 1], [COp.get (K := Nat) (V := Nat) 1]] :=
   ⟨new_treeOk 4 (by omega) (by omega), by intro p hp; simp at hp; rcases hp with rfl | rfl <;> rfl⟩
+
+/-- the hypotheses are satisfiable at ORDER 2 as well: a fresh tree of order 2 satisfies the
+    structural invariant, and a Delete-free program family (point operations and a cursor
+    session) is disciplined and satisfies `hdel` by its right disjunct -/
+example : TreeOk none (Tree.new 2 : Tree Nat Nat) ∧
+    Disciplined [[COp.ins 1 1, COp.ns 0, COp.scan, COp.pair, COp.close, COp.upd 1 (fun _ => 2) false],
+      [COp.get (K := Nat) (V := Nat) 1]] ∧
+    (4 ≤ (Tree.new 2 : Tree Nat Nat).order ∨
+      NoDelete [[COp.ins 1 1, COp.ns 0, COp.scan, COp.pair, COp.close, COp.upd 1 (fun _ => 2) false],
+        [COp.get (K := Nat) (V := Nat) 1]]) :=
+  ⟨new_treeOk 2 (by omega) (by omega), by intro p hp; simp at hp; rcases hp with rfl | rfl <;> rfl,
+   Or.inr (by
+     intro p hp op hop
+     simp at hp
+     rcases hp with rfl | rfl <;> simp at hop <;> (try rcases hop with rfl | rfl | rfl | rfl | rfl | rfl) <;> (try subst hop) <;> rfl)⟩
+
+/-- hence at order 2, for that family, no thread ever panics -/
+example (c : Config Nat Nat)
+    (hr : Reachable (Config.init (Params.mk (fun a b : Nat => decide (a < b)) (fun _ => some 0) 2) (Tree.new 2)
+      [[COp.ins 1 1, COp.ns 0, COp.scan, COp.pair, COp.close, COp.upd 1 (fun _ => 2) false],
+        [COp.get (K := Nat) (V := Nat) 1]]) c) : c.dead = false :=
+  C06_no_panic _ _ _ (new_treeOk 2 (by omega) (by omega)) rfl (by intro k h; simp at h)
+    (by intro p hp; simp at hp; rcases hp with rfl | rfl <;> rfl)
+    (Or.inr (by
+      intro p hp op hop
+      simp at hp
+      rcases hp with rfl | rfl <;> simp at hop <;> (try rcases hop with rfl | rfl | rfl | rfl | rfl | rfl) <;> (try subst hop) <;> rfl))
+    c hr
 
 /-- **C06 (partial): only a held mutex blocks.** A thread waiting for a mutex that nobody
     holds, a thread at a client/callback yield and a thread that has not started are all
